@@ -62,7 +62,7 @@ func (f *FieldUpdater) Merge(dst, src proto.Message) {
 
 	var writableMask fmutils.NestedMask
 	if f.writableFields != nil {
-		writableMask = fmutils.NestedMaskFromPaths(f.writableFields.Paths)
+		writableMask = nestedMask(f.writableFields.Paths)
 	}
 
 	// only allow writing writable fields by resetting non-writable fields in src
@@ -83,15 +83,15 @@ func (f *FieldUpdater) Merge(dst, src proto.Message) {
 		return
 	}
 
-	nestedMask := fmutils.NestedMaskFromPaths(mask.GetPaths())
-	nestedMask.Filter(src)
+	updateMask := nestedMask(mask.GetPaths())
+	updateMask.Filter(src)
 	proto.Merge(dst, src)
 
 	// if a field mentioned by the mask is nil, we should clear it
-	pruneEmpty(dst, src, nestedMask)
+	pruneEmpty(dst, src, updateMask)
 
 	if f.resetMask != nil {
-		fmutils.Prune(dst, f.resetMask.Paths)
+		nestedMask(f.resetMask.Paths).Prune(dst)
 	}
 
 	return
